@@ -1,13 +1,17 @@
 (* C07 — the universal set has 2N+1 distinct strings of length N and generates su(2^N).
-   Proved for all N, k: size and string length.  Distinctness: proved for N <= 12 (finite computation, bound in the
-   statement).  Generation: REFUTED for every odd k and every N; proved for even k and N <= 6 by computation with the
+   Proved for all N, k: size, string length and (k >= 2) pairwise distinctness (Theory/UniversalT.v; the older
+   bounded computation for N <= 12 is kept).  Generation: REFUTED for every odd k and every N; proved for even k and N <= 6 by computation with the
    verified closure.  Even k at larger N is explored, not proved. *)
-From PauLie Require Import Pauli Sym ClSym InvarT Compiler CompilerT ClosureN.
+From PauLie Require Import Pauli Sym ClSym InvarT Compiler CompilerT ClosureN UniversalT.
 
 Theorem C07_size : forall N k U, universal N k = Ok U ->
   length U = (2 * N + 1)%nat /\ forall g, In g U -> length g = N.
 Proof. intros N k U H. split; [apply (universal_length N k U H)|apply (universal_each_length N k U H)]. Qed.
 Print Assumptions C07_size.
+
+Theorem C07_distinct : forall N k U, (2 <= k)%nat -> universal N k = Ok U -> NoDup U.
+Proof. exact universal_nodup. Qed.
+Print Assumptions C07_distinct.
 
 Theorem C07_distinct_bounded : forall N k U, (N <= 12)%nat -> (2 <= k)%nat -> universal N k = Ok U -> NoDup U.
 Proof. exact universal_nodup_bounded. Qed.
